@@ -15,6 +15,7 @@ import XotModel.Lemmas.FspecString
 import XotModel.Lemmas.FspecUnwrap
 import XotModel.Lemmas.FspecWrap
 import XotModel.Model.FspecSpec2
+import XotModel.Model.FspecSpec3
 import XotModel.Lemmas.FspecRepl4
 import XotModel.Lemmas.FspecReplFrame3
 import XotModel.Lemmas.FspecClone
@@ -604,6 +605,40 @@ example :
         [.node (.element 2) [.node (.attribute 5 ['v']) [], .node (.element 3) [.node (.text ['x']) []]],
           .node (.comment ['c']) [], .node (.element 3) [.node (.text ['k']) []]] ∧
       (f.textContentSet 0 ['k']).2 = .err .invalidOperation := by
+  decide
+
+/-! ### Forests that already hold adjacent text nodes (after `set_text_consolidation(false)` … `(true)`)
+
+  Outside `Forest.Normal` the specification of `FspecSpec.lean` (merge the maximal runs) is not
+  what xot does: xot merges exactly the pair that becomes adjacent.  `Model/FspecSpec3.lean` has
+  that PAIR reading (`specMoveP`, `specRemoveP`, `specDetachP`); the suite `fspec` compares it with
+  the real crate and with the model on every successful move / remove / detach, also on forests
+  with adjacent text (all small forests exhaustively): they agree everywhere except in ONE corner
+  (`Spec.selfMerge`), where the real code loses character data — a recorded finding
+  (`C05:move-changes-character-data`).  The pair reading is not yet proved as a theorem. -/
+
+/-- `<e>abcd</e>` as FOUR adjacent text nodes (consolidation was off when they were appended, and is
+    on again). -/
+def selfMergeWitness : Forest :=
+  { roots := [.node 0 (.element 2) [.node 1 (.text ['a']) [], .node 2 (.text ['b']) [],
+      .node 3 (.text ['c']) [], .node 4 (.text ['d']) []]], next := 5, consolidation := true, everOff := true }
+
+/-- `insert_before(d, b)`: `a` and `c` are merged, `b` then already stands before `d`, is taken for
+    its own text neighbour, "merged into itself" and destroyed — the data `b` is lost.  The pair
+    reading gives `acb`, `d`.  Likewise `append(e, b)` on the children `a b c`. -/
+theorem C05_selfmerge_loses_text_witness :
+    selfMergeWitness.inv = true ∧
+    (selfMergeWitness.insertBefore 4 2).2 = .ok ∧
+    (selfMergeWitness.insertBefore 4 2).1.content =
+      [.node (.element 2) [.node (.text ['a', 'c']) [], .node (.text ['d']) []]] ∧
+    (selfMergeWitness.insertBefore 4 2).1.isLive 2 = false ∧
+    (specMoveP (.before 4) 2 selfMergeWitness).content =
+      [.node (.element 2) [.node (.text ['a', 'c', 'b']) [], .node (.text ['d']) []]] ∧
+    selfMerge selfMergeWitness (.before 4) 2 = true ∧
+    (let g : Forest := { selfMergeWitness with roots := [.node 0 (.element 2) [.node 1 (.text ['a']) [],
+        .node 2 (.text ['b']) [], .node 3 (.text ['c']) []]] }
+     (g.append 0 2).2 = .ok ∧ (g.append 0 2).1.content = [.node (.element 2) [.node (.text ['a', 'c']) []]] ∧
+     selfMerge g (.lastChildOf 0) 2 = true) := by
   decide
 
 end XotModel.Props
